@@ -296,6 +296,12 @@ def compile_walk_total(ctx, rep, R):
                path=cfg.describe(w) if w else "")
     walks = [o for o in enclosing_loops(fn, lp) if isinstance(o.iter, ast.Call) and (call_name(o.iter) or "").endswith("walk")]
     for o in walks:
+        files_var = o.target.elts[2].id if isinstance(o.target, ast.Tuple) and len(o.target.elts) == 3 and isinstance(o.target.elts[2], ast.Name) else None
+        reads_files = files_var is not None and any(isinstance(x, ast.Name) and x.id == files_var for x in ast.walk(lp.iter))
+        rep.ob(R, site, "the files parsed are the files the walk found", reads_files,
+               "the innermost loop iterates `%s`, not the walk's own file list `%s`: a second search by a pattern built from the directory's "
+               "name (glob) reads `[`, `*`, `?` in that name as wildcards and finds nothing there" % (norm(lp.iter)[:60], files_var))
+    for o in walks:
         dirvar = o.target.elts[1].id if isinstance(o.target, ast.Tuple) and len(o.target.elts) == 3 and isinstance(o.target.elts[1], ast.Name) else None
         uses = [x for st in o.body for x in ast.walk(st) if isinstance(x, ast.Name) and x.id == dirvar] if dirvar else []
         rep.ob(R, site, "the directory walk is not pruned", dirvar is not None and not uses,
